@@ -38,7 +38,7 @@
 
 ''' This module provides the OMPTargetTrans PSyIR transformation '''
 
-from psyclone.psyir.nodes import CodeBlock, OMPTargetDirective
+from psyclone.psyir.nodes import CodeBlock, OMPTargetDirective, Return
 from psyclone.psyir.transformations.region_trans import RegionTrans
 
 
@@ -84,7 +84,7 @@ class OMPTargetTrans(RegionTrans):
     <BLANKLINE>
 
     '''
-    excluded_node_types = (CodeBlock, )
+    excluded_node_types = (CodeBlock, Return)
 
     def apply(self, node, options=None):
         ''' Insert an OMPTargetDirective before the provided node or list
